@@ -15,6 +15,7 @@ open Pcore.Heap
 #print axioms C08_pointer_stable
 #print axioms C08_new_results_fresh
 #print axioms C08_sort_fresh
+#print axioms C08_observers_heap_unchanged
 open Pcore.Immut
 #print axioms C08_field_writes_safe
 #print axioms C08_resolve_frame
